@@ -34,6 +34,13 @@ func (h *harness) checkParse(c *codec, in []byte, w *worker) {
 			})
 		}
 	case clJunk:
+		if !bytes.Equal(out, in) && !bytes.Equal(out, c.greedyDecode(w.want[:0], in)) && !c.explainable(in, out) {
+			h.viol(c.name+"Parse|bytes-invented-or-dropped|junk", string(in), func() (string, any, string) {
+				return fmt.Sprintf("%sParse(%q) = %q: the output cannot be obtained from the input by copying bytes and replacing escape-like units (%s + %d digit characters of either case) by what they denote — something that is not an escape was rewritten or dropped", c.name, in, out, c.prefix, c.digits),
+					map[string]any{"codec": c.name, "input": fmt.Sprintf("%q", in), "output": fmt.Sprintf("%q", out)},
+					fmt.Sprintf("func TestReplay(t *testing.T) { t.Logf(\"%%q\", strz.%sParseToString(%q)) /* got %q: not a rewriting of the input */ }", c.name, in, out)
+			})
+		}
 		if suf, ok := c.junkTail(w.want[:0], in); ok {
 			w.want = suf
 			if !bytes.HasSuffix(out, suf) {
@@ -189,6 +196,28 @@ func junk(h *harness, cs []*codec) {
 		})
 		// E: every escape value in context
 		embed(h, c)
+		// D: every byte value in every digit position of one escape between text, and every pair of
+		// byte values in two digit positions (a non-digit there makes the sequence no escape at all)
+		fd := &fam{name: "parse/every-byte-in-digit-positions", codec: c.name,
+			space: fmt.Sprintf("b·%s·d1..d%d·b with the digits of the values 0x41 / 0o101 / U+0041 and 0x7A..: every byte value 0..255 in every one digit position, and every pair of byte values in every two digit positions", c.prefix, c.digits)}
+		h.addFam(fd)
+		h.shards(fd, 256, func(x int, w *worker) {
+			for _, val := range []uint32{0x41, 0x7A} {
+				base := c.appendEsc(nil, val)
+				for p := len(c.prefix); p < len(base); p++ {
+					in := append(append([]byte("b"), base...), 'b')
+					in[1+p] = byte(x)
+					h.checkParse(c, in, w)
+					for q := p + 1; q < len(base); q++ {
+						for y := 0; y < 256; y++ {
+							in2 := append([]byte(nil), in...)
+							in2[1+q] = byte(y)
+							h.checkParse(c, in2, w)
+						}
+					}
+				}
+			}
+		})
 		// N: all byte strings of length <= nBytes with a byte outside the structured families' bytes
 		used := c.usedBytes()
 		fn := &fam{name: "parse/all-bytes", codec: c.name,
